@@ -1181,6 +1181,71 @@ pub fn cmd_scenario(args: &HashMap<String, String>) -> i32 {
     use crate::workers::Gate;
     use std::time::Duration;
     let which = args.get("which").map(|s| s.as_str()).unwrap_or("F18");
+    if which == "QUIET" {
+        // C15: a dereference that the log worker has to postpone (reader lock held) and that is ALONE in the queue must
+        // still be written to the log once the reader is gone, without any further commit (real worker threads)
+        let v = Variant::parse(args.get("variant").map(|s| s.as_str()).unwrap_or(""));
+        let u = Univ { seed: 9, v };
+        let root = scratch_root();
+        let dir = fresh_dir(&root, "mtq");
+        let mut viol: Vec<String> = Vec::new();
+        let mut reached = false;
+        {
+            let db = Arc::new(Db::open_or_create(&mt_options(&dir, &u.v, true)).expect("open"));
+            let leaf = |id: u64| NodeRef::New(NewNode { data: u.node_data(id), children: vec![] });
+            db.commit_changes(vec![(0u8, Operation::InsertTree(u.tkey(1), NewNode { data: u.root_data(1), children: vec![leaf(1), leaf(2)] }))]).expect("commit T1");
+            let wait_empty = |ms: u64| {
+                let t0 = std::time::Instant::now();
+                // (a commit being examined by the log worker is out of the queue for an instant: three polls in a row)
+                let mut zeros = 0;
+                while t0.elapsed().as_millis() < ms as u128 {
+                    zeros = if db.verif_pipeline_sizes().0 == 0 { zeros + 1 } else { 0 };
+                    if zeros >= 3 {
+                        return true
+                    }
+                    std::thread::sleep(Duration::from_millis(5));
+                }
+                false
+            };
+            if !wait_empty(10_000) {
+                viol.push("the insertion of the tree was not logged within 10 s".into());
+            }
+            for round in 0..3 {
+                if let Some(h) = ReaderHandle::lock(db.clone(), u.tkey(1)) {
+                    reached = true;
+                    if u.v.rc || round == 0 {
+                        // (counted roots: one more reference each round so that the tree stays)
+                        if round > 0 {
+                            db.commit_changes(vec![(0u8, Operation::ReferenceTree(u.tkey(1)))]).expect("ref");
+                            let _ = wait_empty(5_000);
+                        }
+                    }
+                    db.commit_changes(vec![(0u8, Operation::DereferenceTree(u.tkey(1)))]).expect("commit deref");
+                    // the log worker meets the commit while the lock is held, several times
+                    std::thread::sleep(Duration::from_millis(150 + 100 * round as u64));
+                    h.unlock();
+                    if !wait_empty(10_000) {
+                        viol.push(format!("round {round}: a DereferenceTree postponed while a reader held the lock was still queued 10 s after the reader released it (no further commit was made; queue length {})", db.verif_pipeline_sizes().0));
+                        break
+                    }
+                }
+                if !u.v.rc {
+                    // the tree is gone: insert it again for the next round
+                    db.commit_changes(vec![(0u8, Operation::InsertTree(u.tkey(1), NewNode { data: u.root_data(1), children: vec![leaf(3 + round as u64)] }))]).expect("commit T1 again");
+                    let _ = wait_empty(10_000);
+                }
+            }
+            match Arc::try_unwrap(db) {
+                Ok(d) => drop(d),
+                Err(_) => viol.push("harness: db still shared".into()),
+            }
+        }
+        let _ = std::fs::remove_dir_all(&root);
+        println!("{}", json!({"which": which, "reached": reached, "violations": viol}));
+        use std::io::Write;
+        let _ = std::io::stdout().flush();
+        std::process::exit(0);
+    }
     if which == "F20" {
         let v = Variant::parse(args.get("variant").map(|s| s.as_str()).unwrap_or(""));
         let u = Univ { seed: 5, v };
